@@ -203,3 +203,34 @@ FAMILIES["arrmeth"] = {
         ]},
     ],
 }
+
+VENV = r"^impl VirtualEnv \{"
+CHKSIG = "pub fn {n}(&mut self, args: &[SigNode]) -> Result<(), SigCheckError>"
+FAMILIES["checker"] = {
+    "anchor": "src/check.rs Stack, VirtualEnv::{push,pop,handle_args_outputs,handle_sig}, arms Fork / Bracket / Both / Dip of VirtualEnv::node; parser/src/signature.rs",
+    "bound": "1-3 operands, signatures symbolic below 256",
+    "header": "use crate::shim::*;\n",
+    "rewrites": (PUBCRATE,),
+    "dropped": "nothing inside the extracted items",
+    "groups": [
+        {"prefix": "#[derive(Clone, Copy, PartialEq, Eq, Default, Debug)]\n",
+         "items": [{"kind": "block", "name": "struct Signature", "file": "parser/src/signature.rs", "header": r"^pub struct Signature \{",
+                    "rewrites": (("R4", r"(?m)^\s*///[^\n]*\n", "", "doc comment dropped"),)},
+                   {"kind": "block", "name": "impl Signature", "file": "parser/src/signature.rs", "header": r"^impl Signature \{"}]},
+        {"prefix": "#[derive(Debug, Default, Clone, Copy)]\n",
+         "items": [{"kind": "block", "name": "struct Stack", "file": "src/check.rs", "header": r"^struct Stack \{",
+                    "rewrites": (("R1", r"^struct Stack", "pub struct Stack", "visibility"), ("R1", r"(?m)^    (height|min_height):", r"    pub \1:", "field visibility"))},
+                   {"kind": "block", "name": "impl Stack", "file": "src/check.rs", "header": r"^impl Stack \{",
+                    "rewrites": (("R1", r"(?m)^    fn ", "    pub fn ", "visibility"),)}]},
+        {"wrap": "impl VirtualEnv", "items": [
+            {"kind": "fn", "file": "src/check.rs", "impl": VENV, "fn": "push", "rewrites": (("R1", r"^fn ", "pub fn ", "visibility"),)},
+            {"kind": "fn", "file": "src/check.rs", "impl": VENV, "fn": "pop", "rewrites": (("R1", r"^fn ", "pub fn ", "visibility"),)},
+            {"kind": "fn", "file": "src/check.rs", "impl": VENV, "fn": "handle_args_outputs", "rewrites": (("R1", r"^fn ", "pub fn ", "visibility"),)},
+            {"kind": "fn", "file": "src/check.rs", "impl": VENV, "fn": "handle_sig", "rewrites": (("R1", r"^fn ", "pub fn ", "visibility"),)},
+            {"kind": "arm", "name": "checker arm Fork", "file": "src/check.rs", "impl": VENV, "fn": "node", "arm": r"Fork", "sig": CHKSIG.format(n="arm_fork"), "epilogue_ok": True},
+            {"kind": "arm", "name": "checker arm Bracket", "file": "src/check.rs", "impl": VENV, "fn": "node", "arm": r"Bracket", "sig": CHKSIG.format(n="arm_bracket"), "epilogue_ok": True},
+            {"kind": "arm", "name": "checker arm Both", "file": "src/check.rs", "impl": VENV, "fn": "node", "arm": r"Both", "sig": CHKSIG.format(n="arm_both"), "epilogue_ok": True},
+            {"kind": "arm", "name": "checker arm UnBracket", "file": "src/check.rs", "impl": VENV, "fn": "node", "arm": r"UnBracket", "sig": CHKSIG.format(n="arm_unbracket"), "epilogue_ok": True},
+        ]},
+    ],
+}
